@@ -71,8 +71,16 @@ def gen(rng, tier, quarantine=()):
             need_tool = True
         if kind == "rewrite":
             need_tool = True
-        recs.append({"op": "mk", "id": f"o{i}", "kind": kind, "sels": [sel], "how": how,
-                     "nojudge": True, "filtered": rng.random() < 0.5})
+        rec = {"op": "mk", "id": f"o{i}", "kind": kind, "sels": [sel], "how": how,
+               "nojudge": True, "filtered": rng.random() < 0.5}
+        earlier = [r for r in recs if r["kind"] in ("tweak", "rewrite")]
+        if kind in ("tweak", "rewrite") and earlier and nover == 2 and rng.random() < 0.6:
+            # derived from the other overlay (base.tweaking(...)): it carries that overlay's rules --
+            # the very same rule objects -- too.  Only as a pair: with a third overrider on the same
+            # binding active in between, which of two shared occurrences an out-of-order exit takes
+            # out decides the precedence, and the statement does not say
+            rec["base"] = rng.choice(earlier)["id"]
+        recs.append(rec)
     for i in range(nplain):
         v = focus if rng.random() < 0.7 and not refusal else rng.choice(names)
         ctx = [n for n in names if n != v and n not in fnir.get("mutable", ()) and rng.random() < 0.3][:1]
@@ -94,7 +102,8 @@ def gen(rng, tier, quarantine=()):
                     {"op": "enter", "id": "pre"}, {"op": "exit", "id": "pre"}]
         ops.append({"op": "tool", "fn": qual, "how": "inplace"})
     rng.shuffle(recs)  # activation order drawn by the scheduler
-    ops += recs
+    # (an overlay is made after the one it is derived from)
+    ops += sorted(recs, key=lambda r: 1 if r.get("base") else 0)
     live = []
     # a subscriber of an overridable probe (attached after the override) fails on its k-th event:
     # the failure aborts that call, and must leave nothing behind for the bindings that follow
@@ -131,7 +140,8 @@ def gen(rng, tier, quarantine=()):
         op["faults"] = gen_faults(rng, 30, rng.choice([0, 0, 0, 1]))
         ops.append(op)
         if live and rng.random() < 0.3:
-            ops.append({"op": "exit", "id": live.pop()})
+            # mostly innermost first; overlays and probes may also end in any other order
+            ops.append({"op": "exit", "id": live.pop(rng.randrange(len(live)) if rng.random() < 0.4 else -1)})
     sc = {"prog": "forms", "ops": ops}
     if generated:
         sc.update({"prog": "generated", "program": generated, "prog_name": f"gen{rng.randrange(1 << 40):x}"})
